@@ -273,7 +273,7 @@ Theorem sqlite_table_diff_exact skip from to cps cadds ips iadds fps fadds kps k
   (* indexes *)
   t_idx from = map fst ips -> script_ok i_name ips iadds ->
   Permutation (t_idx to) (kept ips ++ iadds) ->
-  (forall c, In (c, None) ips -> sqlite_is_generated_index_name from1 c = false) ->
+  (forall c, In (c, None) ips -> sqlite_is_generated_index_name from1 c = false \/ similar_unnamed_index sqlite_driver to c = None) ->
   (* foreign keys *)
   t_fks from = map fst fps -> script_ok f_symbol fps fadds ->
   Permutation (t_fks to) (kept fps ++ fadds) ->
